@@ -13,6 +13,7 @@ from objs import run_obj_batch
 
 INT_OPS = ["arith.addi", "arith.subi", "arith.muli", "arith.maxsi", "arith.minsi"]
 FLT_OPS = ["arith.addf", "arith.subf", "arith.mulf"]
+NOPS_PLAN = [2, 3, 1, 2, 4, 3, 2, 1, 3]
 
 
 def make_library(rng, nk, float_share=0.25):
@@ -27,7 +28,7 @@ def make_library(rng, nk, float_share=0.25):
         ty = "f32" if fl else "i32"
         ops_pool = FLT_OPS if fl else INT_OPS
         nin = run_nin
-        nops = rng.choice([1, 2, 2, 3])
+        nops = max(run_nin - 1, NOPS_PLAN[len(lib) % len(NOPS_PLAN)])      # every library holds short and long bodies (stage ids are numbered per body)
         ops = []
         for j in range(nops):
             cands = [("a", i) for i in range(nin)] + [("t", q) for q in range(j)]
@@ -227,7 +228,7 @@ def run(pid: str, tier: str, seed: int, selftest=False, replay=None) -> int:
         cases.append({"kind": "pe", "name": name, "acc": accrec, "abstract": export_pe(abstract), "kernels": [kernel_record(k) for k in ks],
                       "decoded": [{"ok": d["ok"], "sw": d["sw"]} for d in decoded], "true_switches": true_sw,
                       "text": str(abstract), "ktexts": [kernel_text(k) for k in ks], "errs": [d.get("err", "") for d in decoded]})
-    rep.rule = (f"TLC (HistGen.tla) enumerates every merge history of length <= {maxlen} over a per-run library of {nk} kernels (1-3 binary int/float ops, "
+    rep.rule = (f"TLC (HistGen.tla) enumerates every merge history of length <= {maxlen} over a per-run library of {nk} kernels (1-4 binary int/float ops, every library holding bodies of 1, 2, 3 and 4 operations, "
                 "2-3 inputs, differing routing incl. swapped operands and re-used inputs); histories whose kernels share type and arity are replayed on "
                 "the real convert_generic_body_to_phs / append_to_abstract_graph / decode_abstract_graph; TLC evaluates the exported merged graph under the "
                 "decoded switch values on all data in -2..2 against the kernel body (PE.tla); non-trivial = history of length >= 2")
